@@ -6,7 +6,9 @@ if [ "$1" = "-R" ]; then REV="-R"; shift; fi
 P="$1"; shift
 cd /verif
 if ! git -C /repo diff --quiet; then echo "/repo is dirty, refusing"; exit 3; fi
-trap 'git -C /repo checkout -- . ; git -C /repo clean -fdq join join_impl' EXIT
+# (the checks rewrite evidence/<id>.json on every run: keep the files that describe the unchanged tree)
+EB=$(mktemp -d); cp -r /verif/evidence "$EB/evidence"
+trap 'git -C /repo checkout -- . ; git -C /repo clean -fdq join join_impl; cp "$EB"/evidence/*.json /verif/evidence/ 2>/dev/null; find "$EB" -depth -delete' EXIT
 git -C /repo apply $REV "$P" || { echo "patch does not apply"; exit 3; }
 for id in "$@"; do
   out=$(VERIF_SEED=${VERIF_SEED:-1} ./run check $id --tier ${TIER:-quick} 2>&1); code=$?
